@@ -4,9 +4,9 @@ from tools import common, gen_versions, battle, recordings, digest
 LEVEL = 'proof'
 
 
-def fresh_digests(paths, strict):
+def fresh_digests(paths, strict, hashseed='0'):
     """each file in its own fresh interpreter"""
-    env = dict(os.environ, PYTHONPATH=common.REPO + os.pathsep + common.VERIF, PYTHONHASHSEED='0')
+    env = dict(os.environ, PYTHONPATH=common.REPO + os.pathsep + common.VERIF, PYTHONHASHSEED=hashseed)
     procs = []
     out = {}
     for i in range(0, len(paths), 1):
@@ -45,7 +45,7 @@ def run(ctx):
     try:
         pool = []
         wv = battle.wows_versions()
-        picks = list(wv) if not q else [wv[i] for i in range(0, len(wv), 5)]
+        picks = list(wv) if not q else battle.representative_versions(7)
         # releases that ship a build-specific sibling directory (x_y_z_build next to x_y_z): both builds, always, plus a third build number -
         # the same release triple selects different definitions/controllers depending on the build, so a per-release cache or key would show here
         sib = [v for v in wv if len(v.split('_')) == 4 and '_'.join(v.split('_')[:3]) in wv]
@@ -61,12 +61,21 @@ def run(ctx):
         for game, v in (('wot', '1_8_0'), ('wot', '1_10_0'), ('wowp', '2_1_17'), ('wowp', '1_7_5')):
             p = os.path.join(tmp, '%s-%s.%s' % (game, v, {'wot': 'wotreplay', 'wowp': 'wowpreplay'}[game])); battle.write_simple(p, game, v, random.Random(rng.randrange(10 ** 9))); pool.append(p)
         pool += [f for f in recordings.list_recordings() if os.path.getsize(f) < (800000 if q else 10 ** 9)][: (3 if q else 100)]
+        newest = sorted((f for f in recordings.list_recordings() if f.endswith('.wowsreplay')), key=lambda f: [int(x) if x.isdigit() else 0 for x in os.path.basename(os.path.dirname(f)).split('_')])[-1]
+        if newest not in pool: pool.append(newest)
         # failing files
         bad1 = os.path.join(tmp, 'unsupported.wowsreplay')
         battle.write_replay(bad1, 'wowsreplay', {'clientVersionFromXml': '0,7,0,1'}, b'')
         bad2 = os.path.join(tmp, 'trunc.wowsreplay'); data = open(pool[0], 'rb').read(); open(bad2, 'wb').write(data[:len(data) // 2])
         pool += [bad1, bad2]
         fresh = {False: fresh_digests(pool, False), True: fresh_digests(pool, True)}
+        # a fresh process is a fresh process whatever its string-hash seed: the same files under another PYTHONHASHSEED
+        other = fresh_digests(pool, False, hashseed='20261001')
+        for f in pool:
+            ctx.case(('hashseed', os.path.basename(f)))
+            if other[f] != fresh[False][f]:
+                ctx.violation(dict(kind='result-depends-on-hash-seed', file=os.path.basename(f), digest_seed_0=fresh[False][f], digest_seed_20261001=other[f],
+                                   how='PYTHONHASHSEED=0 python -m tools.digest lenient <file>  vs  PYTHONHASHSEED=20261001 python -m tools.digest lenient <file>')); break
         ncalls = 120 if q else 2500
         bad = None; seq = []
         for i in range(ncalls):
